@@ -28,6 +28,9 @@ def _replay(item):
     for kind, style in CONFIGS:
         for r in ("I", "C"):
             n += 1
+            if ovr:
+                # a program using the built-in first: building it must not fix what "size" means for the programs built later
+                celx.run("size([1, 2])", {}, r, functions=None, cache=False)
             del hostfns.LOG[:]
             fns = hostfns.supply(kind, style, ovr)
             o = celx.run(text, {}, r, functions=fns, cache=False)
